@@ -13,7 +13,6 @@ NA = {
     "C05": "Kepler/J2 propagate recompute from a private copy at every call; composition/inverse laws are algebra on a pure function (call-history independence of these propagators is exercised under C08)",
     "C06": "convergence order and drift of a deterministic integrator: numerics of a pure function of (orbit, step, method, date)",
     "C07": "agreement with the reference SGP4 theory is a pure function of (TLE, date); the wrapper's only state is covered as call-history independence under C08",
-    "C09": "as stated and quantified (table, order, query date) a pure function; the lazily cached interpolator is only observable through operations outside this property's quantifier",
     "C11": "geodesy and topocentric geometry are pure functions of (lat, lon, alt, target, date); mask interpolation is a pure function of the table",
     "C16": "ClohessyWiltshire.propagate re-applies the maneuver list from the stored initial state at every call; 'exactly once' is a property of that pure function",
     "C17": "QSW/TNW matrices, maneuver projections and dkep2dv are pure functions; maneuver application in the numerical propagator is recomputed from the epoch at every request",
